@@ -80,7 +80,11 @@ def install(killer):
             return self.f.read(*a)
 
     def _open(cls, path, mode="r"):
-        return W(o_open(cls, path, mode), path, mode)
+        f = o_open(cls, path, mode)
+        if "w" in mode:
+            # the file now exists and is empty (created or truncated), nothing is written yet
+            killer.tick(f"openw {os.path.basename(path)}")
+        return W(f, path, mode)
     ser.LocalCache._open = classmethod(_open)
 
 
